@@ -114,7 +114,11 @@ func (g *G) interpLiteral() (x, gg string, nexpr, ndollar int, kinds []string, h
 			}
 			nexpr++
 			kinds = append(kinds, p.kind)
-			xb.WriteString("${" + p.x + "}")
+			if g.Chance(15, "spaces") {
+				xb.WriteString("${ " + p.x + " }")
+			} else {
+				xb.WriteString("${" + p.x + "}")
+			}
 			gparts = append(gparts, p.g)
 			lastWasText = false
 		}
@@ -150,8 +154,17 @@ func (g *G) InterpItem() Item {
 		if hasBool {
 			bools = true
 		}
-		fmt.Fprintf(&xb, "fmt.Printf(\"  %%q\\n\", %s)\n", x)
-		fmt.Fprintf(&gb, "fmt.Printf(\"  %%q\\n\", %s)\n", gg)
+		// the literal in a drawn context: argument, typed variable, operand of + and ==, argument of a
+		// user function, map key, result of a function literal, case of a switch
+		ctx := []string{"fmt.Printf(\"  %%q\\n\", @)", "{\n\tvar s string = @\n\tfmt.Printf(\"  %%q\\n\", s)\n}", "fmt.Printf(\"  %%q\\n\", \"<\" + @ + \">\")",
+			"fmt.Printf(\"  %%q %%v\\n\", @, @ == \"a\")", "fmt.Printf(\"  %%q\\n\", ts(\"ctx\", @))", "fmt.Printf(\"  %%v\\n\", map[string]int{\"a\": 1}[@])",
+			"fmt.Printf(\"  %%q\\n\", func() string { return @ }())", "switch \"a\" {\ncase @:\n\tfmt.Println(\"  hit\")\ndefault:\n\tfmt.Println(\"  miss\")\n}", "fmt.Printf(\"  %%d\\n\", len(@))"}[g.Intn(9, "ctx")]
+		if strings.Count(ctx, "@") > 1 && nexpr > 0 {
+			ctx = "fmt.Printf(\"  %%q\\n\", @)" // the context would evaluate the parts twice
+		}
+		ctx = strings.ReplaceAll(ctx, "%%", "%")
+		fmt.Fprintf(&xb, "%s\n", strings.ReplaceAll(ctx, "@", x))
+		fmt.Fprintf(&gb, "%s\n", strings.ReplaceAll(ctx, "@", "("+gg+")"))
 		if nexpr >= 2 || ndollar >= 1 {
 			nontrivial = true
 		}
